@@ -65,8 +65,9 @@ impl Number {
             let use_grouping = !options.digit_separator.is_empty()
                 && self.0.abs() >= 10.0_f64.powf(threshold - 1.0);
 
-            // num_format only supports separators of up to 8 bytes. Fall back to
-            // no digit grouping (instead of panicking) for longer separators.
+            // num_format only supports separators of up to 8 bytes (`build()` fails for
+            // longer ones), so group with a one-byte placeholder and substitute the
+            // configured separator afterwards. Digits and "-" never contain a comma.
             let format = CustomFormat::builder()
                 .grouping(if use_grouping {
                     Grouping::Standard
@@ -74,24 +75,24 @@ impl Number {
                     Grouping::Posix
                 })
                 .minus_sign("-")
-                .separator(&options.digit_separator)
+                .separator(",")
                 .build()
-                .unwrap_or_else(|_| {
-                    CustomFormat::builder()
-                        .grouping(Grouping::Posix)
-                        .minus_sign("-")
-                        .separator("")
-                        .build()
-                        .unwrap()
-                });
+                .expect("constant format description is valid");
 
             // TODO: this is pretty wasteful. formatted numbers should be small enough
             // to fit in a CompactString without first going to the heap
-            number
+            let formatted = number
                 .to_i64()
                 .expect("small enough integers are representable as i64")
-                .to_formatted_string(&format)
-                .to_compact_string()
+                .to_formatted_string(&format);
+
+            if options.digit_separator == "," {
+                formatted.to_compact_string()
+            } else {
+                formatted
+                    .replace(',', &options.digit_separator)
+                    .to_compact_string()
+            }
         } else {
             use pretty_dtoa::dtoa;
 
